@@ -250,3 +250,22 @@ Definition pins_C11_exact : bool := asm_rules (filter (in_domain expected_C11) a
 Definition pins_C16_exact : bool := asm_rules (filter (in_domain expected_C16) asm_table) && asm_rules expected_C16 && exact_pins expected_C16.
 Definition pins_C13_exact : bool := asm_rules (filter (in_domain expected_C13) asm_table) && asm_rules expected_C13 && exact_pins expected_C13.
 
+(* the six port access functions consist of their asm! block and nothing else (reads: the
+   declaration of the result and its return): no other statement - e.g. a store to memory - may
+   sit beside the IN / OUT instruction ("without touching memory") *)
+Definition expected_port_fn_shapes : list (string * list string * string) := [
+  ("instructions/port.rs::read_from_port", ["in al, dx"], "letvalue:u8;unsafe{ASM;}value");
+  ("instructions/port.rs::read_from_port", ["in ax, dx"], "letvalue:u16;unsafe{ASM;}value");
+  ("instructions/port.rs::read_from_port", ["in eax, dx"], "letvalue:u32;unsafe{ASM;}value");
+  ("instructions/port.rs::write_to_port", ["out dx, al"], "unsafe{ASM;}");
+  ("instructions/port.rs::write_to_port", ["out dx, ax"], "unsafe{ASM;}");
+  ("instructions/port.rs::write_to_port", ["out dx, eax"], "unsafe{ASM;}")
+].
+Fixpoint shapes_eqb (a b : list (string * list string * string)) : bool :=
+  match a, b with
+  | [], [] => true
+  | (l1, t1, s1) :: a', (l2, t2, s2) :: b' =>
+      String.eqb l1 l2 && list_eqb t1 t2 && String.eqb s1 s2 && shapes_eqb a' b'
+  | _, _ => false
+  end.
+Definition pins_C18_shapes : bool := shapes_eqb port_fn_shapes expected_port_fn_shapes.
